@@ -651,7 +651,9 @@ class Poly2d:
         self._safe_to_grid = False
 
         sx, zx, tx, zy, sy, ty, *_ = A
-        if abs(zx) < tol and abs(zy) < tol:
+        # relative to the scale: normalisation of large coordinates makes all terms tiny
+        tol = tol * max(abs(sx), abs(sy))
+        if abs(zx) <= tol and abs(zy) <= tol:
             self._norm = lambda x, y: (np.polyval([sx, tx], x), np.polyval([sy, ty], y))
             self._safe_to_grid = True
         else:
